@@ -32,7 +32,19 @@ def parseInt? (s : String) : Option Int :=
   | '-' :: t => (String.ofList t).toNat?.map fun n => -(Int.ofNat n)
   | _ => s.toNat?.map Int.ofNat
 
-def parseVal? (s : String) : Option PyVal :=
+def parseScalar? (s : String) : Option Scalar :=
+  match s.toList with
+  | ['B', '0'] => some (.bool false)
+  | ['B', '1'] => some (.bool true)
+  | 'I' :: t => (parseInt? (String.ofList t)).map .int
+  | 'D' :: t => (String.ofList t).toNat?.map .dbl
+  | 'S' :: t => (Driver.hexToChars? (String.ofList t)).map .str
+  | _ => none
+
+def splitNonEmpty (s : String) (sep : String) : List String :=
+  if s.isEmpty then [] else s.splitOn sep
+
+def parseVal? (s : String) : Option PVal :=
   match s.toList with
   | ['N'] => some .none
   | ['B', '0'] => some (.bool false)
@@ -43,17 +55,45 @@ def parseVal? (s : String) : Option PyVal :=
   | 'L' :: ':' :: t =>
     if t.isEmpty then some (.strs [])
     else (((String.ofList t).splitOn ",").mapM Driver.hexToChars?).map .strs
+  | 'W' :: c :: 'I' :: t => (parseInt? (String.ofList t)).map (.wint c)
+  | 'W' :: c :: 'S' :: t => (Driver.hexToChars? (String.ofList t)).map (.wstr c)
+  | 'X' :: ':' :: t => ((splitNonEmpty (String.ofList t) ",").mapM parseScalar?).map .list
+  | 'T' :: ':' :: t => ((splitNonEmpty (String.ofList t) ",").mapM parseScalar?).map .tuple
+  | 'K' :: ':' :: t =>
+    ((splitNonEmpty (String.ofList t) ",").mapM fun (e : String) =>
+      match e.splitOn "=" with
+      | [k, v] => do
+        let k ← Driver.hexToChars? k
+        let v ← parseScalar? v
+        pure (k, v)
+      | _ => none).map .dict
+  | 'Y' :: ':' :: t =>
+    ((splitNonEmpty (String.ofList t) ";").mapM fun (e : String) =>
+      if e == "_" then some [] else (e.splitOn ",").mapM Driver.hexToChars?).map .lists
   | _ => none
 
 def showInt (n : Int) : String := if n < 0 then "-" ++ toString n.natAbs else toString n.natAbs
 
-def showVal : PyVal → String
+def showScalar : Scalar → String
+  | .int n => "I" ++ showInt n
+  | .bool b => if b then "B1" else "B0"
+  | .str s => "S" ++ Driver.charsToHex s
+  | .dbl b => "D" ++ toString b
+
+def showVal : PVal → String
   | .none => "N"
   | .int n => "I" ++ showInt n
   | .bool b => if b then "B1" else "B0"
   | .str s => "S" ++ Driver.charsToHex s
   | .dbl b => "D" ++ toString b
   | .strs l => "L:" ++ ",".intercalate (l.map Driver.charsToHex)
+  | .wint c n => "W" ++ String.singleton c ++ "I" ++ showInt n
+  | .wstr c s => "W" ++ String.singleton c ++ "S" ++ Driver.charsToHex s
+  | .list l => "X:" ++ ",".intercalate (l.map showScalar)
+  | .tuple l => "T:" ++ ",".intercalate (l.map showScalar)
+  | .dict l => "K:" ++ ",".intercalate (l.map fun e => Driver.charsToHex e.1 ++ "=" ++ showScalar e.2)
+  | .lists l => "Y:" ++ ";".intercalate (l.map fun x =>
+      if x.isEmpty then "_" else ",".intercalate (x.map Driver.charsToHex))
 
 def showErr : ErrCat → String
   | .unknownObject => "unknownObject" | .unknownProp => "unknownProp" | .notReadable => "notReadable"
